@@ -165,6 +165,12 @@ def run_harness(binary, args, out, timeout=None, env=None, prefix=()):
     cmd = list(prefix) + [binary] + list(args) + ["--out", out]
     p = subprocess.run(cmd, stdout=subprocess.PIPE, stderr=subprocess.STDOUT, text=True,
                        timeout=timeout, env=env)
+    if p.returncode == 77 and "MemorySanitizer" in p.stdout:
+        # MemorySanitizer stopped the run at a use of uninitialised memory inside the library
+        i = p.stdout.index("MemorySanitizer")
+        j = p.stdout.rfind("\n", 0, i) + 1
+        return {"label": "", "evaluations": 0, "distinct_nontrivial": 0, "violation_count": 1, "samples": [], "notes": {},
+                "violations": [{"sig": "C11/msan-report", "case": "", "detail": p.stdout[j:j + 1800]}], "_stdout": p.stdout[-2000:], "_cmd": cmd}
     if p.returncode not in (EXIT_HELD, EXIT_VIOLATION):
         raise EngineError("harness exit %d: %s\n%s" % (p.returncode, " ".join(cmd), p.stdout[-4000:]))
     with open(out) as f:
@@ -174,12 +180,13 @@ def run_harness(binary, args, out, timeout=None, env=None, prefix=()):
     return res
 
 
-def run_sharded(binary, args, stage, tag, nshards=NCPU, timeout=None, env=None, prefix=()):
-    """Run the harness nshards times in parallel with --shard i/n; merge results."""
+def run_sharded(binary, args, stage, tag, nshards=NCPU, timeout=None, env=None, prefix=(), only=None):
+    """Run the harness nshards times in parallel with --shard i/n; merge results.
+    only: run just the first `only` shards (a deterministic part of the enumeration)."""
     outs = []
     with cf.ThreadPoolExecutor(max_workers=min(NCPU, nshards)) as ex:
         futs = []
-        for i in range(nshards):
+        for i in range(nshards if only is None else min(only, nshards)):
             out = os.path.join(stage, "res-%s-%d.json" % (tag, i))
             a = list(args) + ["--shard", "%d/%d" % (i, nshards)]
             futs.append(ex.submit(run_harness, binary, a, out, timeout, env, prefix))
@@ -207,6 +214,7 @@ class Merged:
         self.notes = {}
         self.violations = []   # dicts: sig, case, detail, replay (spec to re-run)
         self.runs = 0
+        self.out_sums = {}     # tag -> [sum mod 2^64, count]
 
     def add(self, res, replay_spec=None):
         self.runs += 1
@@ -219,6 +227,9 @@ class Merged:
         for s in res.get("samples", []):
             if len(self.samples) < 12 and s not in self.samples:
                 self.samples.append(s)
+        for t, (hx, n) in res.get("out_sums", {}).items():
+            cur = self.out_sums.get(t, [0, 0])
+            self.out_sums[t] = [(cur[0] + int(hx, 16)) % (1 << 64), cur[1] + n]
         lab = res.get("label", "")
         for k, v in res.get("notes", {}).items():
             key = k if not lab else "%s[%s]" % (k, lab)
